@@ -61,6 +61,9 @@ CHECKS["C18"] = ("simsut", "exploration", "deterministic simulation: H2 log repl
 CHECKS["C13"] = ("distsim", "exploration", "deterministic simulation with fault injection on the random-source seam: scripted extreme-word prefixes followed by a fair stream, against Dist::sample and the framework's consumers, with per-case crash/hang containment",
    "Validated distributions of all 11 families (corner and random parameters) are sampled under adversarial prefixes of the random source, directly and as timeout/duration/limit/counter value inside a framework; a panic, hang (word budget / CPU limit) or out-of-range value is a violation. Two defects of the rand_distr dependency (D5 hang, D9 assertion) are matched narrowly as known findings.",
    "'Real number' read as not-NaN (+inf is produced by validated parameters by construction); D5's trigger generated at a reduced rate.", "DESIGN.md §6 C13, §8")
+CHECKS["C11"] = ("codec", "fault_enumeration", "deterministic simulation with fault injection on the stored artefact: corruption catalogue and exhaustive truncation/bit-flip sweeps on machine strings, compression bombs under a counting allocator, restart-from-strings behavioural comparison",
+   "Fault-free baseline (round trip incl. sizes crossing 32 KiB / 256 KiB compressed and approaching 1 MiB, behavioural identity under a fault-injected history) plus the storage-fault catalogue against from_str and the legacy v1 parser; every truncation point and single-bit flip of small encodings is enumerated; peak memory of from_str is measured against 192 MiB + 4*len(input).",
+   "Round trip is input generation (the no-fault baseline of the channel). Memory constant derived from the largest machine a 1 MiB payload can describe (measured peak 68 MB).", "DESIGN.md §6 C11")
 NOT_YET = {}
 NA = {
  "C12": "pure predicate over one machine value: no history, clock, random draw, interleaving or stored-byte fault takes part in deciding whether validation accepts a value; deciding it is input generation (property-based testing), not deterministic simulation (DESIGN.md §7)",
